@@ -15,7 +15,8 @@ Direct oracles state every clause on the real (float32) implementation and give 
 import colorsys, itertools, json, math
 import numpy as np
 import torch
-from harness.common import zlit, listlit
+import re
+from harness.common import zlit, listlit, ALLOWED_AXIOM_PREFIXES
 from tracer.recipes import c15 as recipe
 from tracer import emit
 
@@ -27,7 +28,8 @@ PROPS = ['C15_mat3_err', 'C15_ycrcb_roundtrip', 'C15_ycrcb_matches_bt601', 'C15_
          'C15_grey_zero_chroma', 'C15_white_lab', 'C15_black_lab', 'C15_lab_roundtrip', 'C15_lab_f_matches_cie',
          'C15_lab_layout', 'C15_lab_layout_old_refuted', 'C15_third_stage_table', 'C15_third_stage_old_refuted',
          'C15_lms_roundtrip', 'C15_instance']
-TIE_STAGES = [['C15_TieTac'], ['C15_TieA', 'C15_TieB', 'C15_TieC', 'C15_TieD', 'C15_TieE'], ['C15_TieProps']]
+TIE_STAGES = [['C15_TieTac'], ['C15_TieA', 'C15_TieB', 'C15_TieC', 'C15_TieD', 'C15_TieE'],
+              ['C15_TiePropsA', 'C15_TiePropsH', 'C15_TiePropsB', 'C15_TiePropsC']]
 
 # round-trip tolerances on the float32 implementation: the bound proved over R plus float32 rounding
 RT_TOL = {'ycrcb': 1.0e-3 + 2e-6, 'gamma': 1e-7 + 2e-6, 'xyz': 1e-5 + 6e-6, 'hsv': 1e-8 + 3e-6, 'lab': 1e-5 + 6e-5}
@@ -497,6 +499,36 @@ def correspondence_layout(ctx):
     ctx.obligation('correspondence:lab-layout(model = implementation on %d shapes x 2 functions)' % len(shapes), mism == 0, '%d disagreements' % mism)
 
 
+# ---------------------------------------------------------------- Print Assumptions, several files in parallel
+def theorems_parallel(ctx, module, names, nfiles=10):
+    """Same obligations as ctx.theorems (one per theorem: exists, depends only on allowed axioms), but the
+    `Print Assumptions` commands -- 5 s each for the theorems that rest on Interval -- are spread over files
+    compiled in parallel."""
+    groups = [names[k::nfiles] for k in range(nfiles) if names[k::nfiles]]
+    files = []
+    for k, grp in enumerate(groups):
+        lines = ['Require Import %s.' % module]
+        for n in grp:
+            lines.append('Goal True. idtac "@@THM %s". exact I. Qed.' % n)
+            lines.append('Print Assumptions %s.' % n)
+        lines.append('Goal True. idtac "@@END". exact I. Qed.')
+        files.append(('Assumptions_C15_%d' % k, '\n'.join(lines) + '\n'))
+    res = ctx.coqc_many(files, 600)
+    for grp, (ok, out) in zip(groups, res):
+        blocks = re.split(r'@@THM (\S+)', out)
+        seen = {blocks[i]: blocks[i + 1].split('@@END')[0] for i in range(1, len(blocks) - 1, 2)}
+        for n in grp:
+            b = seen.get(n)
+            if not ok or b is None:
+                ctx.obligation('theorem:%s.%s' % (module, n), False, out[-800:]); continue
+            if 'Closed under the global context' in b:
+                ctx.obligation('theorem:%s.%s' % (module, n), True); continue
+            ax = [a for a in re.findall(r"^([A-Za-z_][\w.']*)\s*:", b, flags=re.M) if a != 'Axioms']
+            bad = [a for a in ax if not a.startswith(ALLOWED_AXIOM_PREFIXES)]
+            ctx.axioms.update(ax)
+            ctx.obligation('theorem:%s.%s' % (module, n), not bad and bool(ax), 'non-stdlib axioms: %s' % bad if bad else '')
+
+
 # ---------------------------------------------------------------- run
 def run_oracles(ctx, n_random, n_curve):
     rng = ctx.rng
@@ -552,7 +584,7 @@ def run(ctx):
                         'display primaries linearly independent (pseudo-inverse contract) for the LMS round trip']
     ctx.gate()
     ctx.ensure_theories(['theories/C15/Props.vo'])
-    ctx.theorems('OdakV.C15.Props', PROPS)
+    theorems_parallel(ctx, 'OdakV.C15.Props', PROPS)
     try:
         g = recipe.trace()
         ctx.programs = len(g.defs)
